@@ -421,6 +421,19 @@ def search(ctx):
         for fname in ref.FILTERS:
             check(ctx, {"kind": "filter", "size": size, "filter": fname})
     ctx.extra["filter_cases_enumerated_exhaustively"] = True
+    # every image size x every filter name once per run (size-specific code paths - FFT padding, detector
+    # padding - must not depend on the luck of the size draw): noise + impulse sinograms, circle mode
+    for N in range(4, 49):
+        if (N + ctx.widx) % max(1, ctx.nworkers) != 0 and ctx.nworkers > 1 and not ctx.thorough:
+            continue
+        for j, fname in enumerate(ref.FILTERS):
+            sd = 1000 * N + j + 17 * ctx.seed
+            check(ctx, {
+                "kind": "iradon", "N": N, "theta_dtype": "float32", "angles": [0.0, 37.5, 90.0, 121.25, 180.0][: 3 + (N + j) % 3],
+                "filter": fname, "circle": True, "tier": "size_x_filter_grid",
+                "sinos": [{"type": "noise", "seed": sd % 2**31, "amp": 1.0}, {"type": "impulse", "points": [[0, N // 2, 1.0], [1, N - 1, -2.0]]}],
+                "lin": {"sino": {"type": "ones", "amp": 1.0}, "a": 1.0, "b": -0.5},
+            })  # fmt: skip
     # large problems: every row of the grid, twice (quick) or six times (thorough, per worker)
     for k, row in enumerate(LARGE_THOROUGH if ctx.thorough else LARGE_QUICK):
         core.run_given(ctx, "large-%d" % k, large_cases(row), lambda c: check(ctx, c), ctx.n(2, 6), shrink=False)
